@@ -46,6 +46,24 @@ CHECKS = {
  'C12': dict(level='proof', design='§4 C12',
              text='Real MergedTimeline::{of,from,clone,update,start_with,delay,duration,repeat,cycle_duration} MIR (with its reduce/min_by/max_by/max closures and Repeat ordering) over 0..3 (thorough 4) components with independent symbolic timing and every overlapping/disjoint property mask; components are abstract timelines obeying L-tl, plus real derive timelines for the single-timeline wrapper. Solver decides: overlay order, start_with propagation, delay=min, duration=max (inf), repeat=max, cycle_duration iff all agree, empty list.',
              technique='symbolic execution of rustc MIR + SMT (z3 EUF+FP+BV)'),
+ 'C15': dict(level='translation_validation', design='§4 C15',
+             text='A generated family of timeline! sentences (every argument kind present/absent, literal forms int/float/underscored, s/ms, for/after, Nx/infinite, reverse, easing paths, from/to/N%/N.5%, every integer percentage, argument orders, bracketed merged lists) is compiled with the REAL macro; each is paired with builder-API code generated independently from the documented reading. The executor runs both MIR bodies and compares the built timeline values structurally (identical value => identical update at all times and identical metadata). The macro\'s numeric kernels (percent and millisecond scaling) are read from the MIR of mina_macros and decided by the solver for ALL literal values (every N in 0..=100, every integer ms below 2^24).',
+             technique='translation validation: symbolic execution of both MIR bodies + structural identity; SMT (cvc5/z3, QF_FPBV) for the scaling kernels',
+             note='"all sentences of the grammar" is covered by a generated finite family (stated bound); compile-time rejection of ill-formed sentences is NOT claimed (needs the compiler as oracle); ' + TB),
+ 'C16': dict(level='translation_validation', design='§4 C16',
+             text='A generated family of animator! blocks (with/without default clause, inline/expression/omitted default values, A | B arms, bracketed merged arms, `default` keyframe bodies, repeated arms, no arms) compiled with the REAL macro, each paired with independently generated StateAnimatorBuilder code; the executor builds both animators (real expansion MIR, real EnumMap-backed builder) and compares the complete initial private state structurally; differing pairs are driven natively through a 12-operation history.',
+             technique='translation validation: symbolic execution of both MIR bodies + structural identity',
+             note='no hook needed (the expansion is ordinary MIR of the generated crate); finite family; compile-time rejection not claimed; ' + TB),
+ 'C17': dict(level='translation_validation', design='§4 C17',
+             text='A generated family of struct shapes (1..6 fields of f32/f64/u8/i16/i32/u32, every #[animate] subset up to 3 (thorough 4) fields, listed patterns for 5-6, visibilities, remote proxies) is compiled with the REAL derive; per shape: the setter set is read off the MIR item list; keyframe_from == keyframe + animated setters (structural); accessors return the configured delay / cycle / repeat and TimeScale::get_duration; update equals the C01 reference on the (remote) target and leaves other fields alone (solver, per path).',
+             technique='translation validation: MIR item inspection + symbolic execution + SMT (z3)'),
+ 'C18': dict(level='model_checking', design='§4 C18',
+             text='Inductive one-frame step of the REAL animate::<T> system MIR from an arbitrary Animator pre-state (enabled, position, state symbolic; timeline / target present or not) with a symbolic frame delta over a call-level model of the ECS entry points; per execution path the solver decides every clause of the property (time conservation, forward-only states, Waiting only before the delay, Ended neither early nor more than one frame late, never Ended when infinite, terminal values when Ended, one event per state change carrying the end-of-frame state, disabled changes nothing). Counterexamples are replayed on a real bevy App with a hand-driven clock.',
+             technique='symbolic execution of rustc MIR over an ECS contract model + SMT (z3); inductive step',
+             note='trusted: the ECS call-level model (checks/bevy_model.py), the abstract timeline contract, as_secs_f32 uninterpreted; ' + TB),
+ 'C20': dict(level='proof', design='§4 C20',
+             text='No-panic / finiteness / dev==release obligations over the encodings of the other checks: TimeScale kernel (all f32, every Repeat incl. Times(u32::MAX), overflow-checked vs wrapping semantics compared), every execution path of build + start_with + update + accessors on the structural shapes (panicking paths must be infeasible), StateAnimator::advance with the exact Duration model for every finite dt >= 0, f32 lerp finiteness for |v| <= 2^120; the documented integer-lerp overshoot panic is a recorded known finding.',
+             technique='symbolic execution of rustc MIR in both overflow semantics + SMT (cvc5/z3)'),
  'C03': dict(level='proof', design='§4 C03',
              text='Bounded proof: every clause of the property is an SMT obligation over the symbolic execution of the real MIR of TimeScale::{new,get_position,get_duration,get_delay,get_cycle_duration,get_repeat}; all finite f32 t/delay/duration (quick: low 12 mantissa bits zero), every repeat variant and u32 count, both build profiles; sat answers are replayed natively before being reported.',
              technique='symbolic execution of rustc MIR + SMT (cvc5/z3 portfolio), QF_FPBV'),
